@@ -172,6 +172,13 @@ class ExecCM(Obj):
         self.set(st, 'shut', z3.BoolVal(True))
         return [('ok', st, False)]
 
+    def m_shutdown(self, ex, st, args, kwargs, node):
+        # shutdown(wait=True) returns after the running calls have finished; wait=False leaves them running
+        wait = kwargs.get('wait', args[0] if args else z3.BoolVal(True))
+        st = st.fork()
+        self.set(st, 'shut', z3.Or(self.get(st, 'shut'), ex.truth(st, wait)))
+        return [('ok', st, NONE)]
+
 
 class FifoGen(Obj):
     def __init__(self, ex, args, kwargs):
@@ -246,7 +253,7 @@ class ParmapperIter(Unit):
                 x = self.execs[0]
                 ex.oblige(s, f'exit({k}): [C08] exactly one executor of the requested kind, built with max_workers == concurrency',
                           z3.And(conds[0], box(ex, x.nworkers) == V.intv(self.conc) if x.nworkers is not None else z3.BoolVal(False)))
-                ex.oblige(s, f'exit({k}): the executor is shut down on every exit path [C05]', x.get(s, 'shut'))
+                ex.oblige(s, f'exit({k}): the executor is shut down, waiting for its running calls, on every exit path [C05, C08]', x.get(s, 'shut'))
             g = getattr(self, 'fifo', None)
             ok = g is not None and len(g.args) == 2 and isinstance(unbox_handle(ex, g.args[1]), Closure) and unbox_handle(ex, g.args[1]).node.name == '_work'
             kw = dict(g.kwargs) if g is not None else {}
